@@ -1499,7 +1499,7 @@ def main(argv=None):
         cases = [j['case']['case'] if 'case' in j['case'] else j['case']]
     else:
         cases += load_corpus()
-        nh = 64 if not ck.thorough else 800
+        nh = 64 if not ck.thorough else 600
         for i in range(nh):
             ops = gen_history(ck.rng, ck.rng.choice([3, 4, 5, 6, 7, 8, 9])) if i % 40 != 7 else []
             seqs = gen_sequences(ck.rng, ops, ck.thorough)
